@@ -373,6 +373,13 @@ def _arith(op, a, b):
             for lo, hi in _contig_runs(cb):
                 tot = tot + ((a / (1 << lo)) % (1 << (hi - lo))) * (1 << lo)
             return tot
+        if op == 'or':
+            # (t * 2^k) | b  ==  t * 2^k + b   whenever 0 <= b < 2^k  (side condition => obligation)
+            for x, y in ((a, b), (b, a)):
+                k = _pow2_multiple(x)
+                if k:
+                    E.side(z3.And(y >= 0, y < (1 << k)), 'lia: | operand below 2^%d' % k)
+                    return x + y
         raise SymErr('lia: operator %s needs ints="bv"' % op)
     # ---- bit-vector mode, exact under the registered no-wrap conditions
     if op == 'add':
@@ -423,6 +430,18 @@ def _arith(op, a, b):
         E.side(b >= 0, 'negative shift count')
         return z3.If(b >= WIDTH, z3.If(a < 0, iconst(-1), iconst(0)), a >> b)
     raise SymErr('operator %s' % op)
+
+
+def _pow2_multiple(t):
+    """k if the term is syntactically  c * u  with c = 2^k, k >= 1; else 0."""
+    if z3.is_mul(t) and t.num_args() == 2:
+        for i in (0, 1):
+            c = t.arg(i)
+            if z3.is_int_value(c):
+                v = c.as_long()
+                if v > 1 and v & (v - 1) == 0:
+                    return v.bit_length() - 1
+    return 0
 
 
 def _floordiv_lia(a, b):
@@ -533,7 +552,7 @@ class SSeq:
 def _table_get(items):
     def get(k):
         if isinstance(k, int):
-            return items[k]
+            return items[k] if 0 <= k < len(items) else 0     # raw read outside the table (spec side only)
         if not items:
             return 0
         # nested ite over a concrete table
@@ -859,6 +878,19 @@ def split_eq(a, b, chunk=24, _depth=0, cases=None):
         for suf, cl in split_eq(ea, eb, chunk, _depth + 1):
             out.append(('[i]' + suf, implies(rng, cl)))
     return out
+
+
+def named(sq, name='named'):
+    """The same sequence, but read through a fresh array symbol defined by  arr[q] == sq[q]  (0 <= q < len):
+    composite sequences (concatenations, merges) then offer the plain trigger term arr[q] to quantified facts."""
+    if sq.arr is not None:
+        return sq
+    I = isort()
+    arr = z3.Array(E.fresh(name), I, I)
+    q = ivar(E.fresh('q'))
+    E.axioms.append(z3.ForAll([q], z3.Implies(z3.And(q >= 0, q < toint(sq.n)), arr[q] == toint(sq.get(SInt(q)))),
+                              patterns=[arr[q]]))
+    return SSeq(sq.n, lambda k: SInt(z3.Select(arr, toint(k))), sq.kind, arr)
 
 
 def byte_seq(name, n=None, kind='bytes'):
